@@ -24,6 +24,11 @@ def scenarios(tier):
     L.append((SC.scn("diamond-j2", w["diamond"], ["redo --no-log -j2 top"], visible=SC.TOKENS), 1 if q else 2))
     # several children exiting between two wake-ups of their parent (default schedule: the parent parks, all children finish)
     L.append((SC.scn("fan3-j3", w["fan3"], ["redo --no-log -j3 top"], visible=SC.TOKENS), 0 if q else 2))
+    # (6) token starvation with log capture: the followed sub-redo cheats (finds its target up to date / builds it itself)
+    from .c08 import cheat_worlds
+    cw1, cw2 = cheat_worlds()
+    L.append((SC.scn("log-cheat-uptodate-j2", cw1, ["redo -j2 b a c"], visible=SC.TOKENS + ["lock-try"], log_mode=True), 1 if q else 2))
+    L.append((SC.scn("log-cheat-builds-j2", cw2, ["redo -j2 b a c"], visible=SC.TOKENS + ["lock-try"], log_mode=True), 0 if q else 2))
     if not q:
         L.append((SC.scn("fan3x2-j3", w["fan3x2"], ["redo --no-log -j3 t1 t2"], visible=SC.TOKENS), 2))
         L.append((SC.scn("failfan-j2", w["failfan"], ["redo --no-log -j2 top"], visible=SC.TOKENS), 2))
